@@ -89,7 +89,7 @@ package absnfs
 //@ func AttrCache.Clear
 //@ prop C21 C17
 //@ requires c != nil
-//@ modifies c.cache, c.accessList, lmem, lrank, llen, locks
+//@ modifies c.cache, c.accessList, lmem[c.accessList], lrank[c.accessList], llen[c.accessList], locks
 //@ ensures [empty] len(c.cache) == 0 && forall(q, string, !has(c.cache, q))
 //@ ensures [inv] c.maxSize > 0 ==> acInv(c)
 //@ ensures [unlocked] held(c.mu) == 0
